@@ -90,7 +90,15 @@ func asBytes(value any) ([]byte, bool) {
 // daysSinceEpoch returns the number of full UTC days between t and the
 // Unix epoch — the Arrow date32 wire encoding.
 func daysSinceEpoch(t time.Time) int32 {
-	return int32(t.UTC().Sub(epochUTC) / (24 * time.Hour))
+	// Floor division on the Unix second count: time.Time.Sub saturates about
+	// 292 years from the epoch, and dividing a Duration truncates toward zero,
+	// which puts an instant before 1970 on the following day.
+	secs := t.Unix()
+	days := secs / 86400
+	if secs%86400 < 0 {
+		days--
+	}
+	return int32(days)
 }
 
 // microsSinceMidnight returns the wall-clock microsecond offset of t
